@@ -21,18 +21,18 @@ import (
 // C01: GenBank records written by gts read back identically (closure + fidelity).
 
 type c01Case struct {
-	Kind    string   `json:"kind"` // field | date | residues | table | corpus | stream | program | registry
-	Field   string   `json:"field,omitempty"`
-	Value   string   `json:"value,omitempty"`
-	Values  []string `json:"values,omitempty"`
-	N       int      `json:"n,omitempty"`
-	Y       int      `json:"year,omitempty"`
-	M       int      `json:"month,omitempty"`
-	D       int      `json:"day,omitempty"`
-	Seed    string   `json:"seed,omitempty"`
-	Ops     []string `json:"ops,omitempty"`
-	Feats   []string `json:"features,omitempty"`
-	Quals   []string `json:"qualifiers,omitempty"`
+	Kind   string   `json:"kind"` // field | date | residues | table | corpus | stream | program | registry
+	Field  string   `json:"field,omitempty"`
+	Value  string   `json:"value,omitempty"`
+	Values []string `json:"values,omitempty"`
+	N      int      `json:"n,omitempty"`
+	Y      int      `json:"year,omitempty"`
+	M      int      `json:"month,omitempty"`
+	D      int      `json:"day,omitempty"`
+	Seed   string   `json:"seed,omitempty"`
+	Ops    []string `json:"ops,omitempty"`
+	Feats  []string `json:"features,omitempty"`
+	Quals  []string `json:"qualifiers,omitempty"`
 }
 
 func c01Base() seqio.GenBank {
